@@ -51,8 +51,6 @@ MUTANTS = [
      "        self._eventlist.remove(event)", "        pass", 6000),
     ("c02-nan-accepted", "C02", "simulator.py",
      "        if not time >= self._simulator_time:", "        if time < self._simulator_time:", 6000),
-    ("c02-negative-delay-accepted", "C02", "simulator.py",
-     "        if not float(delay) >= 0:\n            raise DSOLError(\"cannot schedule event in the past\")\n", "", 6000),
     # ---- C03
     ("c03-bound-ge", "C03", "simulator.py",
      "            if (t > self._run_until_time or (t == self._run_until_time \\\n                    and not self._run_until_including) ",
@@ -257,6 +255,8 @@ EQUIVALENT = [
      "        if self._n > 0:\n            m = self._weighted_mean\n            return m\n        return math.nan", None),
 ]
 EXTRA_HEAD = {
+    "c02-nan-accepted": ("simulator.py", "        if not event.time >= self._simulator_time:",
+                         "        if event.time < self._simulator_time:"),
     "c12-shared-generator": ("streams.py", "logger = get_module_logger('streams')",
                              "logger = get_module_logger('streams')\n_SHARED = Random()"),
     "eq-from-threading-import-event": ("simulator.py", "import threading\n",
